@@ -155,6 +155,21 @@ class TableKeyParameter(Parameter):
     def encode_placeholder_into_pdu(self, physical_value: Optional[ParameterValue],
                                     encode_state: EncodeState) -> None:
 
+        if self.table_row is not None:
+            # the table row to be used is statically specified, i.e.,
+            # the key is not part of the PDU (cf. decoding)
+            tr_short_name = self.table_row.short_name
+            if physical_value is not None and physical_value != tr_short_name:
+                odxraise(
+                    f"The value of table key '{self.short_name}' is statically "
+                    f"specified as '{tr_short_name}' (is: {physical_value!r})", EncodeError)
+            encode_state.table_keys[self.short_name] = tr_short_name
+            if self.byte_position is not None:
+                # like the decoder, objects without an explicit
+                # position continue at the position of the key
+                encode_state.cursor_byte_position = encode_state.origin_byte_position + self.byte_position
+            return
+
         if physical_value is not None:
             key_dop = self.table.key_dop
             if key_dop is None:
@@ -202,6 +217,10 @@ class TableKeyParameter(Parameter):
 
     def encode_value_into_pdu(self, encode_state: EncodeState) -> None:
 
+        if self.table_row is not None:
+            # statically specified table row: nothing to encode
+            return
+
         key_dop = self.table.key_dop
         if key_dop is None:
             odxraise(
@@ -237,6 +256,7 @@ class TableKeyParameter(Parameter):
             # the table row to be used is statically specified -> no
             # need to decode anything!
             phys_val = self.table_row.short_name
+            decode_state.table_keys[self.short_name] = self.table_row
         else:
             # Use DOP to decode
             key_dop = odxrequire(self.table.key_dop)
